@@ -332,7 +332,8 @@ def find_children_for_parent(var_collector: Collector, parent_node: ParentNode, 
         return process_dict_breadth_first(parent_node, variable_type.__name__, value)
     elif variable_type.__name__ in LIST_LIKE_TYPES:
         return process_list_breadth_first(var_collector, parent_node, value)
-    elif isinstance(value, Exception):
+    elif issubclass(variable_type, Exception):
+        # check the type, isinstance falls back to value.__class__ which can run the code of the value
         return process_list_breadth_first(var_collector, parent_node, value.args)
     else:
         attributes = instance_attributes(value)
